@@ -180,6 +180,7 @@ def rule_C17(env):
         if len(samples) < 6 and lf.pre:
             samples.append(sample(lf, []))
     res.floor("O3", 300, "emission leaves")
+    guard_premise(env, res, "C17")
     import rules_c04
     tmp = Result("C17", "model_checking")
     rules_c04.emission_findings(env, tmp, tr, "safe")
@@ -190,6 +191,17 @@ def rule_C17(env):
     coverage_mc(res, env, tr, n, nobl, samples, bfs)
     res.assumptions = ASSUME_PVM
     return res
+
+
+def guard_premise(env, res, pid):
+    """every per-opcode obligation assumes that the opcode was chosen among those whose guard holds IN THE CURRENT STATE:
+    the loop structure of generate_internal (fresh get_valid_opcodes -> weighted_choice -> emit_and_process) is a shared premise"""
+    import rules_c01
+    tmp = Result(pid, "model_checking")
+    rules_c01.generate_structure_checks(env, tmp)
+    for f in tmp.findings:
+        if "/R01.a/" in f.key or "/engine/" in f.key:
+            res.add("premise", f.key.split("/", 2)[2], "the guards are not what decides which opcode is emitted: " + f.msg, f.where, f.detail)
 
 
 def memo_key_identity(lf):
@@ -281,6 +293,7 @@ def rule_C03(env):
             res.add("R03.c", "emit_and_process/%s/memo-key-identity" % op,
                     "%s: %s - the simulation records the kind of a different memo entry than the one the bytes fetch" % (op, p), op_loc(env, "::emit_and_process"), sample(lf, [p]))
     res.floor("R03.a", 40, "guarded leaves of kind-constrained opcodes")
+    guard_premise(env, res, "C03")
     # the reference machine computes kinds from the BYTES: an emission that is not the one well-formed opcode the simulation
     # assumes makes it execute something else from there on (O5, shared with C01/C17)
     import rules_c04
